@@ -195,6 +195,30 @@ def inter (M : Nat) (a b : List Blk) : List Blk :=
   | .ok () => a
   | .error r => r
 
+/-- what a certificate says about one resource family (`ResourcesChoice`) -/
+inductive Claim
+  | missing
+  | inherit
+  | blocks (c : List Blk)
+deriving DecidableEq, Repr
+
+/-- `AsBlocks::verify_issued` / `IpBlocks::verify_issued` on the issuer's chain: `none` = the
+overclaim error of the refuse policy -/
+def verifyIssued (M : Nat) (issuer : List Blk) (claim : Claim) (trimMode : Bool) : Option (List Blk) :=
+  match claim with
+  | .missing => some []
+  | .inherit => some issuer
+  | .blocks c =>
+    if trimMode then
+      some (match trim M c issuer with | .ok () => c | .error r => r)
+    else if isEncompassed c issuer then some c else none
+
+/-- `IpBlocks::contains_block` / `contains_roa` -/
+def containsBlock (c : List Blk) (b : Blk) : Bool := c.any (fun r => r.lo ≤ b.lo && b.hi ≤ r.hi)
+
+/-- `IpBlocks::intersects_block` -/
+def intersectsBlock (c : List Blk) (b : Blk) : Bool := c.any (fun r => intersects r b)
+
 /-- `AsBlocks::asn_count`; `none` models the arithmetic overflow panic of the unrepaired code;
 `asnCountSaturates` is read from the source -/
 def asnCount (c : List Blk) : Option Nat :=
